@@ -13,8 +13,6 @@ import (
 
 type (
 	Locker    = sync.Locker
-	Map       = sync.Map
-	Pool      = sync.Pool
 	WaitGroup = sync.WaitGroup
 	Cond      = sync.Cond
 )
@@ -163,3 +161,78 @@ func OnceValues[T1, T2 any](f func() (T1, T2)) func() (T1, T2) {
 		return r1, r2
 	}
 }
+
+// Map wraps sync.Map: every operation is a decision point (before and after),
+// performed on the real map.
+type Map struct{ m sync.Map }
+
+func (m *Map) Load(key any) (value any, ok bool) {
+	zzsim.SyncPoint()
+	value, ok = m.m.Load(key)
+	zzsim.SyncPoint()
+	return
+}
+func (m *Map) Store(key, value any) { zzsim.SyncPoint(); m.m.Store(key, value); zzsim.SyncPoint() }
+func (m *Map) Clear()               { zzsim.SyncPoint(); m.m.Clear(); zzsim.SyncPoint() }
+func (m *Map) LoadOrStore(key, value any) (actual any, loaded bool) {
+	zzsim.SyncPoint()
+	actual, loaded = m.m.LoadOrStore(key, value)
+	zzsim.SyncPoint()
+	return
+}
+func (m *Map) LoadAndDelete(key any) (value any, loaded bool) {
+	zzsim.SyncPoint()
+	value, loaded = m.m.LoadAndDelete(key)
+	zzsim.SyncPoint()
+	return
+}
+func (m *Map) Delete(key any) { zzsim.SyncPoint(); m.m.Delete(key); zzsim.SyncPoint() }
+func (m *Map) Swap(key, value any) (previous any, loaded bool) {
+	zzsim.SyncPoint()
+	previous, loaded = m.m.Swap(key, value)
+	zzsim.SyncPoint()
+	return
+}
+func (m *Map) CompareAndSwap(key, old, new any) (swapped bool) {
+	zzsim.SyncPoint()
+	swapped = m.m.CompareAndSwap(key, old, new)
+	zzsim.SyncPoint()
+	return
+}
+func (m *Map) CompareAndDelete(key, old any) (deleted bool) {
+	zzsim.SyncPoint()
+	deleted = m.m.CompareAndDelete(key, old)
+	zzsim.SyncPoint()
+	return
+}
+
+// Range visits the entries in the real map's order (sync.Map makes no promise
+// about it; a library whose answers depend on it is nondeterministic by
+// itself).  Decision points before the walk and after every callback.
+func (m *Map) Range(f func(key, value any) bool) {
+	zzsim.SyncPoint()
+	m.m.Range(func(k, v any) bool {
+		r := f(k, v)
+		zzsim.SyncPoint()
+		return r
+	})
+	zzsim.SyncPoint()
+}
+
+// Pool wraps sync.Pool; New keeps its meaning.
+type Pool struct {
+	New func() any
+	p   sync.Pool
+}
+
+func (p *Pool) Get() any {
+	zzsim.SyncPoint()
+	v := p.p.Get()
+	zzsim.SyncPoint()
+	if v == nil && p.New != nil {
+		v = p.New()
+	}
+	return v
+}
+
+func (p *Pool) Put(x any) { zzsim.SyncPoint(); p.p.Put(x); zzsim.SyncPoint() }
